@@ -68,8 +68,11 @@ def beat_formula(ctx: Ctx) -> None:
     c = one(cons, f"Note construction in {fi.fq}")
     fm = field_map(ctx, "simfile.notes.Note", c)
     b = fm.get("beat")
-    require(b is not None and isinstance(b, ast.Call) and callee_name(ctx, fi, b) == "simfile.timing.Beat" and len(b.args) == 2 and not b.keywords,
-            f"{fi.fq}: beat is not Beat(numerator, denominator): {src(b) if b is not None else '-'}")
+    require(b is not None and isinstance(b, ast.Call) and callee_name(ctx, fi, b) == "simfile.timing.Beat", f"{fi.fq}: beat is not a Beat(...): {src(b) if b is not None else '-'}")
+    if not (len(b.args) == 2 and not b.keywords):
+        ctx.bad("R-POLY", fi, "beat == 4*measure + 4*row/rows", f"{src(b)} is not an exact numerator/denominator pair: a single (float) argument is rounded to the 1/48 grid, so rows that do "
+                "not divide 192 (5, 10, 128 rows ...) get a wrong beat", node=b)
+        return
     params = fi.param_names()
     require(len(params) == 4, f"{fi.fq}: expected (self, p, m, measure)")
     _, pp, pm, pmeasure = params
@@ -762,6 +765,30 @@ def columns_rule(ctx: Ctx) -> None:
     rr = [r for r in body_walk(c.node) if isinstance(r, ast.Return)]
     ctx.expect("R-TABLE", c, "columns reports that count", len(rr) == 1 and self_attr(rr[0].value, c.param_names()[0]) == "_columns", "", "", node=c.node)
     g = p.func(f"{ND}._get_columns")
+    from .common import parent as _parent
+    nfind = 0
+    for sl in [x for x in body_walk(g.node) if isinstance(x, ast.Subscript) and isinstance(x.slice, ast.Slice)]:
+        for bound in (sl.slice.lower, sl.slice.upper):
+            if bound is None:
+                continue
+            e = inline(bound, g)
+            if any(isinstance(c, ast.Call) and isinstance(c.func, ast.Attribute) and c.func.attr in ("find", "rfind") for c in ast.walk(e)):
+                nfind += 1
+                # guarded by an enclosing conditional expression / if on the same value being >= 0 (or > 0)
+                guarded = False
+                node, child = _parent(g, sl), sl
+                while node is not None and not isinstance(node, ast.stmt):
+                    if isinstance(node, ast.IfExp) and child is node.body:
+                        t = node.test
+                        if isinstance(t, ast.Compare) and len(t.ops) == 1 and isinstance(t.ops[0], (ast.Gt, ast.GtE, ast.NotEq)) and ast.unparse(inline(t.left, g)) == ast.unparse(e):
+                            guarded = True
+                    child, node = node, _parent(g, node)
+                for a, pol in facts(ctx, g, sl):
+                    if pol and isinstance(a, ast.Compare) and isinstance(a.ops[0], (ast.Gt, ast.GtE, ast.NotEq)) and ast.unparse(inline(a.left, g)) == ast.unparse(e):
+                        guarded = True
+                ctx.expect("R-NULL", g, f"str.find() result is checked for 'not found' before it bounds the slice {src(sl, 40)}", guarded, "",
+                           f"{src(sl)}: find() returns -1 when there is no comma, and the slice then silently drops the last character (single-measure note data)", node=sl)
+    ctx.floor("find()-bounded slices in _get_columns", nfind, 1)
     rr = [r for r in body_walk(g.node) if isinstance(r, ast.Return)]
     okg = len(rr) == 1 and isinstance(rr[0].value, ast.Call) and isinstance(rr[0].value.func, ast.Name) and rr[0].value.func.id == "len"
     ex = [x for x in calls(g) if callee_name(ctx, g, x).endswith("NoteData._extract_keysound_indices")]
